@@ -75,6 +75,11 @@ def run(ctx):
             for inp, r in zip(b["inputs"], b["rows"]):
                 ctx.evaluations += 1
                 r0 = ref[inp]
+                # wall-clock nondeterminism (RDKit's 1 s MCS budget, the 2 s thread wait) is not a threshold effect:
+                # a row whose search timed out in either run is not comparable across runs
+                if any("timeout" in (x.get("issue") or "") for x in (r, r0)):
+                    ctx.timing_unstable += 1
+                    continue
                 case = {"input": inp, "threshold": t}
                 if r["solved_by"] == "mcs-based":
                     ctx.nontrivial.add((inp, t))
